@@ -47,6 +47,10 @@ def cases(tier, seed):
             npairs = n * (n - 1) // 2
             for mask in range(1 << npairs):
                 out.append({"key": f"q8lower/n={n}/s={mask:0{npairs}b}", "grp": "q8lower", "n": n, "mask": mask, "row": 0})
+    for n in (8, 9, 12, 17):
+        for st in ("generic", "hermitian", "hess", "ints"):
+            out.append({"key": f"{st}/n={n}/large", "grp": "struct", "st": st, "n": n, "row": 0})
+        out.append({"key": f"colmask/n={n}/large", "grp": "colmask", "n": n, "mask": 0b101, "cls": "ints", "row": 0})
     return out
 
 
